@@ -818,9 +818,11 @@ def run(ctx) -> dict:
             'context.axis, and reverse axes are numbered from the far end with size = length '
             'of the materialised list.',
         'not_decided':
-            'That composed paths are duplicate-free and in document order, equality with '
-            'libxml2 and across parser versions, predicate semantics: these depend on the data '
-            'flowing through the generators.',
+            'Decided beyond the focus/axis table: merged step results leave through a sort, chained '
+            'predicates of reverse axes are numbered from the far end, axes are defined for every '
+            'kind of context node. Not decided: the node set a composed path selects in general, '
+            'equality with libxml2 and across parser versions beyond those clauses, predicate '
+            'truth values: these depend on the data flowing through the generators.',
         'assumptions': ['sa/specs/axes.json transcribes the axis directions of the '
                         'specification', 'exits by exception or GeneratorExit are out of scope'],
     }
